@@ -327,13 +327,25 @@ def replay(w):
         return {'reproduced': True, 'detail': w['what']}
     dtype = np.float32 if w['dtype'] == 'f4' else np.float64
     worst = (0.0, None)
-    for S in (w['S'], 5):        # real Gabor bank at 1 kHz: one-sided support 9 samples, the property requires frame_shift < 9
+    def mk_real(which, S, pad, energy):
+        if which == 'gabor':     # complex bank at 1 kHz: one-sided support 9 samples, the property requires frame_shift < 9
+            return si.real_si(S, None, w['style'], power=w['power'], log=w['log'], pad=pad, include_energy=energy)
+        from pydrobert.speech.compute import SIFrameComputer
+        from pydrobert.speech.filters import TriangularOverlappingFilterBank
+        bank = TriangularOverlappingFilterBank('mel', num_filts=3, sampling_rate=4000, low_hz=200)      # real bank: rfft / irfft path
+        return SIFrameComputer(bank, frame_shift_ms=S / 4.0 + 0.01, frame_style=w['style'], include_energy=energy, pad_to_nearest_power_of_two=pad,
+                               window_function='hamming', use_power=w['power'], use_log=w['log'])
+    for which, S in (('gabor', w['S']), ('gabor', 5), ('tri', 20), ('tri', 21)):
         for pad in (False, True):
             for energy in (False, True):
                 try:
-                    c = si.real_si(S, None, w['style'], power=w['power'], log=w['log'], pad=pad, include_energy=energy)
+                    c = mk_real(which, S, pad, energy)
                 except Exception as e:
                     return {'reproduced': True, 'detail': 'real constructor raised %s: %s' % (type(e).__name__, e)}
+                if c._frame_style == 'causal' and not c._frame_shift < c._max_support - c._translation:
+                    continue
+                if c._frame_style == 'centered' and not c._frame_shift < c._max_support - c._max_support // 2:
+                    continue
                 V = c._dft_size - c._max_support + 1
                 for N in sorted(set([w['N'], 0, 1, c._frame_shift, c._frame_length, V - 1, V, V + 1, 2 * V + 3, c._dft_size + 5, 3 * c._dft_size])):
                     xs = (rng.randn(N) * 3).astype(dtype)
@@ -350,7 +362,7 @@ def replay(w):
                     d = float(np.abs(got - want).max()) if got.size else 0.0
                     tol = 1e-7 if dtype == np.float64 else 2e-3
                     if d > tol * max(1.0, float(np.abs(want).max()) if want.size else 1.0) and d > worst[0]:
-                        worst = (d, 'S=%d pad=%s energy=%s N=%d' % (S, pad, energy, N))
+                        worst = (d, '%s bank, frame_shift=%d dft_size=%d pad=%s energy=%s N=%d' % (which, c._frame_shift, c._dft_size, pad, energy, N))
     return {'reproduced': worst[1] is not None, 'detail': 'max |compute_full - definition| = %.3g (%s)' % worst}
 
 
